@@ -854,9 +854,9 @@ macro_rules! xstep {
 }
 // @h prop=C12 unwind=10 rec=2 cutfmt=1 uw=execute.0:2;same_output.0:25;exit_model.0:25;exit.0:25;push.0:17;write.0:17 timeout=3600 what=execute():entered_형_command
 xstep!(x_push, Cfg { kind: 0, h: 2, d: 3, depth: [0, 0, 0, 1, 0, 0], ..CFG0 });
-// @h prop=C12 unwind=10 rec=2 cutfmt=1 uw=execute.0:2;same_output.0:25;exit_model.0:25;exit.0:25;push.0:17;write.0:17 timeout=14400 mem=24 tier=thorough kind=stretch what=execute():entered_항_with_a_heart:label_registered_at_the_new_position
+// @h prop=C12 unwind=10 rec=2 cutfmt=1 uw=execute.0:2;same_output.0:25;exit_model.0:25;exit.0:25;push.0:17;write.0:17 timeout=1800 mem=12 tier=thorough kind=stretch what=execute():entered_항_with_a_heart:label_registered_at_the_new_position
 xstep!(x_add_heart, Cfg { kind: 1, h: 2, d: 4, area: 1, npts: 0, depth: [0, 0, 0, 2, 0, 0], ..CFG0 });
-// @h prop=C12 unwind=10 rec=2 cutfmt=1 uw=execute.0:2;same_output.0:25;exit_model.0:25;exit.0:25;push.0:17;write.0:17 timeout=14400 mem=24 tier=thorough kind=stretch what=execute():entered_흑_with_white_heart_and_no_jump_source
+// @h prop=C12 unwind=10 rec=2 cutfmt=1 uw=execute.0:2;same_output.0:25;exit_model.0:25;exit.0:25;push.0:17;write.0:17 timeout=1800 mem=12 tier=thorough kind=stretch what=execute():entered_흑_with_white_heart_and_no_jump_source
 xstep!(x_dup_white, Cfg { kind: 5, h: 1, d: 4, area: 2, latest: false, depth: [0, 0, 0, 1, 0, 0], ..CFG0 });
 // @h prop=C12 unwind=10 rec=2 cutfmt=1 uw=execute.0:2;same_output.0:25;exit_model.0:25;exit.0:25;push.0:17;write.0:17 timeout=3600 what=execute():entered_command_that_exits_through_stack_1
 xstep!(x_exit, Cfg { kind: 1, h: 1, d: 3, cur: 1, depth: [0, 0, 0, 1, 0, 0], ..CFG0 });
